@@ -475,8 +475,9 @@ def rec_key(r):
 
 class BestMode(es.E2EStream):
     """mode `best`: every record must be the query's first-pass record, its second-pass record, or the joined record the other modes
-    report for it ("a joined record exists only for a first- and a second-pass record ...").  Open finding F12: when the second-pass row
-    beats the first-pass row, `best` mode hands that row to the join twice and reports the self-join (only its first segment)."""
+    report for it ("a joined record exists only for a first- and a second-pass record ...").  Finding F12 (repaired, fix: 69b485a): when
+    the second-pass row beat the first-pass row, `best` mode handed that row to the join twice and reported the self-join (only its first
+    segment); the signature is kept so that a recurrence is named precisely (it is no longer listed as open, so it is a VIOLATION)."""
     name = 'e2e_best_mode'
     quick_n, thorough_n = 3, 8
 
